@@ -64,6 +64,10 @@ def skeletons(nf):
     sk('allfail', [(A('never'), conj(call('d1', X), FAIL)), (F('never2', A('a')), FAIL), (F('never2', X), conj(call('d1', X), FAIL)),
                    (F('r', X), conj(call('d1', X), ('not', call('never')))), (F('r', X), call('never2', X)), (F('r', X), conj(call('never'), call('d1', X)))],
        ('r', ['any']), {('d1', 1): nf})
+    sk('renamed', [(F('path', X, Y), call('d2', X, Y)), (F('path', V('A'), V('B')), conj(call('d2', V('A'), X), call('path', X, V('B'))))],
+       ('path', ['any', 'any']), {('d2', 2): nf}, max_steps=60)
+    sk('recdyn', [(F('r', F('f', X)), call('r', X)), (F('t', X), conj(call('r', X), call('r', F('f', X))))],
+       ('t', ['any']), {('r', 1): nf}, max_steps=80)
     sk('alias', [(F('r', X), conj(eq(X, Y), call('d1', Y))), (F('r', X), conj(call('same', X, Y), call('d1', Y), eq(X, C(1)))),
                  (F('same', Z, Z), TRUE)],
        ('r', ['any']), {('d1', 1): nf})
@@ -170,8 +174,8 @@ def units(tier, seed):
         anyk = [k for k, kind in enumerate(sk['query'][1]) if kind == 'any']
         # modes stay symbolic inside a unit; thorough partitions on the first argument's mode
         parts = [{}]
-        if anyk and (tier != 'quick' or sk['name'] == 'path'):
-            parts = [{'m%d' % anyk[0]: m} for m in range(NMODES if tier != 'quick' else 3)]
+        if anyk and (tier != 'quick' or sk['name'] in ('path', 'renamed')):
+            parts = [{'m%d' % anyk[0]: m} for m in range(3 if (tier == 'quick' or sk['name'] in ('path', 'renamed')) else NMODES)]
         for fx in parts:
             tag = ''.join('%s%d' % kv for kv in sorted(fx.items()))
             us.append(dict(id='a.%s.%s' % (sk['name'], tag or 'all'), skeleton=sk['name'], nf=nf, fixed=fx, ob='C01.a',
